@@ -4,18 +4,25 @@ PROP = 'C07'
 LEAN_MODULE = 'ParsecVerif.Props.C07'
 DRIVERS = ['pv_C07']
 THEOREMS = ['ParsecVerif.C07.cinv_step', 'ParsecVerif.C07.counter_exactly_once', 'ParsecVerif.C07.counter_word',
-            'ParsecVerif.C07.counter_step_progress']
+            'ParsecVerif.C07.counter_step_progress',
+            'ParsecVerif.DepWordMask.minv_step', 'ParsecVerif.DepWordMask.maskOK_of_flows', 'ParsecVerif.C07.mask_exactly_once',
+            'ParsecVerif.C07.mask_word_bits', 'ParsecVerif.C07.mask_word_final', 'ParsecVerif.C07.mask_step_progress']
 IMPL = 'parsec/parsec.c (parsec_update_deps_with_counter, parsec_update_deps_with_mask, parsec_check_IN_dependencies_with_*)'
 ENGINE = 'lean-coop'
 LEVEL = 'proof'
-LEVEL_TEXT = ('Lean 4 theorem for every goal n>=1 and EVERY interleaving of the n concurrent releases at atomic-operation granularity (counter mode): at most one call '
+LEVEL_TEXT = ('Lean 4 theorems for EVERY interleaving of the concurrent releases at atomic-operation granularity, in both modes. Counter mode: for every goal n>=1, at most one call '
               'returns ready, it does so only when all other calls have returned, and exactly one does once all returned (inductive invariant by counter abstraction, no bound '
-              'on n or on the schedule). The model is tied to the current source on every run: the real parsec_update_deps_with_counter/_with_mask run on a fabricated task class '
+              'on n or on the schedule). Mask mode: the same statement for the fetch-or results of parsec_update_deps_with_mask, for all IN masks, goal masks and released-flow lists '
+              'satisfying the explicit decidable hypothesis MaskOK (distinct released flows below bit 30, in the goal and not in the IN mask; every goal bit is an IN bit or a released flow; '
+              'goal without IN_DONE) and every schedule (bit-by-bit inductive invariant of the word, including the plain-read/fetch-or race on IN_DONE); MaskOK is proved for the generator\'s '
+              'inMask/goalMask/releaseBits of every flow list of at most 30 flows with at least one released flow; the word never has a bit outside IN_DONE, the IN mask and the released flows. '
+              'The model is tied to the current source on every run: the real parsec_update_deps_with_counter/_with_mask run on a fabricated task class '
               '(data, collection, control, control-gather, guarded-off and write-only flows) under a deterministic cooperative scheduler hooked at every atomic primitive; every '
               'executed schedule is replayed step by step on the Lean machine (program point and word value after each step, return values) — exhaustively for small thread counts, '
               'randomly for larger ones.')
-LEVEL_NOTE = ('Mask mode: the small-step model and its correspondence (including the goal/IN-mask computation) are checked on every run, and the exactly-once oracle is evaluated on '
-              'every real execution, but the unbounded Lean theorem is proved for counter mode only (mask-mode theorem not yet written: that part is exploration). Sequentially consistent '
+LEVEL_NOTE = ('Mask mode is now a theorem too (ParsecVerif.C07.mask_exactly_once over ParsecVerif.DepWordMask.MInv), under the hypothesis MaskOK, which is proved for the model of the goal/IN-mask '
+              'computation (itself checked against the real parsec_check_IN_dependencies_with_mask on every run) but excludes classes with control gathers (those use counters) and assumes one '
+              'release per listed flow. Sequentially consistent '
               'interleavings of atomic operations only (no weak-memory effects). Trusted: Lean kernel, propext/Classical.choice/Quot.sound, the cooperative scheduler and hook H1.')
 TECHNIQUE = 'Lean 4 proof (inductive invariant over all interleavings, counter abstraction) on a small-step model; tie = step-by-step schedule replay of the real code under a cooperative scheduler'
 ASSUMPTIONS = ['sequential consistency at the granularity of parsec_atomic_* operations', 'each required input is released exactly once (usage protocol of the runtime)']
